@@ -555,6 +555,10 @@ def judge(backend, slots, script_slots, out, exp, root_hint=None):
             for name, val in e.get('env', {}).items():
                 if r['env'].get(name) != val:
                     bad = ('env-differs', {name: r['env'].get(name)})
+            if 'VF_E' in r['env'] and 'VF_E' not in e.get('env', {}):
+                # the script gave this step no environment=: the variable can only be another
+                # step's (steps sharing one shell, an export that outlives its command)
+                bad = ('env-leaked-from-another-step', {'VF_E': r['env']['VF_E']})
             for m2, want2 in e.get('more', {}).items():
                 r2 = by_mark.get(m2, [])
                 if len(r2) != 1 or [os.path.basename(r2[0]['argv'][0])] + r2[0]['argv'][1:] != want2:
@@ -616,6 +620,8 @@ def judge(backend, slots, script_slots, out, exp, root_hint=None):
                 continue
             sopts = script_opts_c if k == 'compile' else script_opts_l if k == 'link' else []
             verdict[i] = check_step(k, rs[0], sopts + e['opts'])
+            if verdict[i] is None and 'VF_E' in rs[0]['env']:
+                verdict[i] = ('env-leaked-from-another-step', {'VF_E': rs[0]['env']['VF_E']})
     for sl in script_slots:
         i = sl['id']
         e = exp[i]
